@@ -181,11 +181,15 @@ Fixpoint xml_match (fuel : nat) (key : option bytes) (v : jv) (s : bytes) : list
   | S f =>
       match raw_number v with
       | Some t =>
-          (* a number that is not an integer: the JSON and the XML output print the same f32 / f64 with
-             different numbers of digits, so any number text is accepted here (the values are compared
-             through the BSON output) *)
+          (* a number that is not an integer (its text has a point or an exponent): the JSON and the XML output
+             print the same f32 / f64 with different numbers of digits, so any number text is accepted here (the
+             values are compared through the BSON output); an integer too large for the tree encoding must
+             appear digit for digit *)
           let is_num c := ((48 <=? c) && (c <=? 57)) || (c =? 43) || (c =? 45) || (c =? 46) || (c =? 101) || (c =? 69) in
-          let body r := match span_until (fun c => negb (is_num c)) r with ([], _) => [] | (_, r') => [r'] end in
+          let is_float := existsb (fun c => (c =? 46) || (c =? 101) || (c =? 69)) t in
+          let body r := if is_float
+                        then match span_until (fun c => negb (is_num c)) r with ([], _) => [] | (_, r') => [r'] end
+                        else take_pref t r in
           match key with
           | Some k => flat_map (take_pref (tag_close k)) (flat_map body (take_pref (tag_open k) s))
           | None => body s
